@@ -87,6 +87,7 @@ type Interp struct {
 	merges    int
 	curFn     *ssa.Function
 	probes    []probe
+	fixed     map[string]uint64
 	symFmtOK  int
 	initBroken map[*ssa.Package]bool
 	assumed   map[*Term]bool
@@ -392,6 +393,12 @@ func (in *Interp) runBody(fr *Frame) {
 		}
 		fr.loopCnt[blk]++
 		if fr.loopCnt[blk] > in.eng.unwindFor(fr.fn) {
+			if in.eng.fairLoops[fr.fn.String()] {
+				// a spin loop waiting for another thread: schedules that starve that
+				// thread forever are excluded (fair-scheduler assumption, recorded)
+				in.noteOnce("fair scheduling: spin loop in " + fr.fn.String() + " is not starved forever")
+				panic(&pathEnd{kind: "assume", msg: "unfair schedule (spin loop bound)"})
+			}
 			panic(&pathEnd{kind: "unwind", msg: fmt.Sprintf("unwinding bound reached in %s block %d (%s)", fr.fn, blk.Index, blk.Comment)})
 		}
 		// phi nodes are evaluated in parallel
